@@ -1,6 +1,8 @@
 package languages
 
 import (
+	"sort"
+
 	"github.com/grafana/codejen"
 	"github.com/grafana/cog/internal/ast"
 	"github.com/grafana/cog/internal/ast/compiler"
@@ -35,5 +37,9 @@ func (languages Languages) AsLanguageRefs() []string {
 	for language := range languages {
 		result = append(result, language)
 	}
+
+	// languages is a map: sort the names to always return them in the same order
+	sort.Strings(result)
+
 	return result
 }
